@@ -251,6 +251,46 @@ extern "C" int harness_main() {
   verif_reach("recovered");
   return 0;
 }
+#elif defined(MODE_DRYRUN)
+// ------------------------------------------------------------------------------------------------ C19: -n observes without disturbing, and tells the truth
+static std::string tree_snapshot() {
+  std::string t; char buf[96];
+  for (size_t i = 0; i < g_tree->files.size(); i++) { VFile& f = g_tree->files[i]; if (!f.exists) continue; snprintf(buf, sizeof buf, "%ld/%ld;", (long)f.mtime, f.content); t += f.name + "=" + buf; }
+  snprintf(buf, sizeof buf, "log=%lu deps=%lu", verif_file_size(".ninja_log"), verif_file_size(".ninja_deps")); t += buf;
+  return t;
+}
+extern "C" int harness_main() {
+  ir2c_global_ctors();
+  const Scenario* sc = &kScenarios[SCENARIO];
+  init_tree(sc);
+  full_build(sc); user_operations(sc);
+#ifdef LEFTOVERS
+  // files a failed or interrupted earlier build may have left behind: the depfile of a deps=gcc statement, a kept response file
+  for (size_t i = 0; i < 10 && sc->cmds[i].out; i++) { }
+  if (verif_bool("stale_depfile_left")) g_tree->write_text("o.d", "o: c hdr\n");
+  if (verif_bool("stale_rspfile_left")) g_tree->write_text("sub/x.rsp", "old");
+#endif
+  InvocationOpts o; o.targets = symbolic_targets(sc, "request_target"); o.run.parallelism = 1 + verif_choice("jobs_minus_1", 2);
+  std::string before = tree_snapshot(); size_t ndirs = g_tree->dirs.size();
+  InvocationOpts d = o; d.dry_run = true;
+  InvocationResult rd = invoke(d);
+  VERIF_ASSERT(rd.parsed && rd.added, "the scenario manifest parses and the targets are known");
+  std::string after = tree_snapshot();
+  VERIF_ASSERT(rd.started.empty(), "C19: a dry run executes no build command");
+  VERIF_ASSERT(before == after, "C19: a dry run leaves every source, output, depfile and both logs unchanged");
+  VERIF_ASSERT(rd.rc == 0, "C19: a dry run succeeds");
+  // the listing of the dry run against the real run from the same state
+  InvocationResult rr = invoke(o);
+  observe(rr);
+  if (rr.rc == 0) {
+    bool superset = true; for (size_t i = 0; i < rr.started.size(); i++) superset = superset && has_id(rd.status_started_edges, rr.started[i]);
+    VERIF_ASSERT(superset, "C19: every command the real build runs was listed by the dry run");
+    bool has_restat = false; for (size_t i = 0; i < g_ref.size(); i++) has_restat = has_restat || (g_ref[i].flags & KEEP_IF_SAME);
+    if (!has_restat) VERIF_ASSERT(rd.status_started_edges.size() == rr.started.size(), "C19: without restat rules the dry run lists exactly the commands the real build runs");
+    verif_reach(rr.started.empty() ? "nothing-to-do" : "compared");
+  }
+  return 0;
+}
 #elif defined(MODE_CYCLE)
 // ------------------------------------------------------------------------------------------------ C17: cycles are diagnosed, and only real ones
 // does the part of the graph needed for f (declared inputs of every kind; discovered ones only once they have been recorded) contain a cycle?
